@@ -309,6 +309,28 @@ pub fn check(property: &str, tier: &str, started: Instant) -> i32 {
     let findings = runner::load_findings();
     let mut violations = 0u64;
     let mut known_seen = vec![];
+    if !agg.aborted_runs.is_empty() {
+        if property != "C12" {
+            eprintln!("HARNESS-ERROR: the server process died during run indexes {:?} (a C12 matter: run ./check C12); this check cannot judge C11 on them", agg.aborted_runs);
+            return 2;
+        }
+        for i in agg.aborted_runs.iter().take(3) {
+            let s = runner::run_seed(seed, *i);
+            violations += 1;
+            let path = runner::replay_path(&format!("C12-{}-abort.json", s));
+            let g = world_a::generate(s, tier == "thorough", true);
+            let rv = json!({"world": "A", "property": "C12", "signature": "process_abort", "seed": s, "run": i, "minimised": false,
+                "violation": {"kind": "process_abort", "detail": "the process running the server died (stack overflow / abort) while this session was executed: no request after that point can be answered"},
+                "case": {"regenerate": {"base_seed": seed, "run": i, "tier": tier, "faults": true}, "program": g.program},
+                "how_to_replay": "cd /verif && ./check replay <this file>  (re-executes the run in a child process and reports whether it dies again)"});
+            if let Err(e) = runner::write_json(&path, &rv) {
+                eprintln!("HARNESS-ERROR: {}", e);
+                return 2;
+            }
+            println!("VIOLATION property=C12 replay={}", path.display());
+            println!("  signature=process_abort run_index={} seed={}", i, s);
+        }
+    }
     let min_deadline = started.elapsed().as_secs() + 180;
     let mut minimise_left = 5;
     for (k, f) in &agg.failures {
@@ -405,6 +427,35 @@ pub fn replay(v: &Value, path: &str) -> i32 {
     let property = v["property"].as_str().unwrap_or("");
     let signature = v["signature"].as_str().unwrap_or("");
     let seed = v["seed"].as_u64().unwrap_or(0);
+    if let Some(r) = v["case"].get("regenerate") {
+        // a run that killed its process is replayed in a child process
+        let exe = std::env::current_exe().expect("exe");
+        let out = runner::verif_path(&format!("target/scratch/replay-abort-{}.json", std::process::id()));
+        let i = r["run"].as_u64().unwrap_or(0);
+        let mut cmd = std::process::Command::new(exe);
+        cmd.arg("worker").arg("A").arg(r["tier"].as_str().unwrap_or("quick")).arg(r["base_seed"].as_u64().unwrap_or(1).to_string()).arg(i.to_string()).arg((i + 1).to_string()).arg(&out);
+        if r["faults"].as_bool().unwrap_or(false) {
+            cmd.arg("faults");
+        }
+        let st = cmd.stdout(std::process::Stdio::null()).stderr(std::process::Stdio::null()).status();
+        let _ = std::fs::remove_file(&out);
+        let _ = std::fs::remove_file(out.with_extension("progress"));
+        return match st {
+            Ok(s) if !s.success() => {
+                println!("VIOLATION property=C12 replay={}", path);
+                println!("  reproduced: the process executing the session died again ({:?})", s.code());
+                1
+            }
+            Ok(_) => {
+                println!("not reproduced: the session ran to its end");
+                0
+            }
+            Err(e) => {
+                eprintln!("HARNESS-ERROR: {}", e);
+                2
+            }
+        };
+    }
     let case: Case = match serde_json::from_value(v["case"].clone()) {
         Ok(c) => c,
         Err(e) => {
